@@ -263,6 +263,23 @@ def expand(prog):
                 q = flag_params(prog, f)
                 if q:
                     flg[f.path] = q
+        # a parameter handed on unchanged to a flag parameter of a callee is a flag parameter too
+        grew = True
+        while grew:
+            grew = False
+            for f in prog.fns.values():
+                if f.is_closure or not f.info.get('mir') or f.trait_item or f.path in accessors:
+                    continue
+                for c in f.body.calls:
+                    hp = (c.callee or {}).get('path')
+                    if hp not in flg:
+                        continue
+                    for k in flg[hp]:
+                        if k - 1 < len(c.args):
+                            a = strip_ref(c.args[k - 1])
+                            if a is not None and a.kind == 'param' and a.args[0] not in flg.get(f.path, set()):
+                                flg.setdefault(f.path, set()).add(a.args[0])
+                                grew = True
         if not cbp and not flg:
             break
         rec = {}
